@@ -51,6 +51,8 @@ def run_one_shard(spec, scratch, timeout):
     pyargs = spec.get("pyargs", [])
     cmd = [PY] + pyargs + [os.path.join(VERIF, "vf", "worker.py"), sp, op]
     cwd = spec.get("cwd") or VERIF
+    if cwd.startswith("@"):
+        cwd = VERIF  # symbolic: the worker creates and enters the directory itself
     t0 = time.time()
     try:
         p = subprocess.run(
